@@ -14,6 +14,8 @@ DOMAINS = {
     "heap": {"letter": "H", "header_tokens": 3},
     "lexer": {"letter": "L", "header_tokens": 3},
     "match": {"letter": "M", "header_tokens": 6},
+    "p01": {"letter": "P", "header_tokens": 4}, "p02": {"letter": "P", "header_tokens": 4}, "p05": {"letter": "P", "header_tokens": 4},
+    "p06": {"letter": "P", "header_tokens": 4}, "p08": {"letter": "P8", "header_tokens": 4}, "p09": {"letter": "P9", "header_tokens": 4},
 }
 
 PROPS = {
@@ -92,6 +94,26 @@ PROPS["C03"] = {
     "rule": "cases = (pattern, header, caller's length, numbers capacity, default); patterns of 1..4 keywords from a 17-keyword pool with optional / numeric / query flags, common patterns, and the patterns shipped in tests and examples; headers assembled per keyword from short form, long form, near misses (one letter more / less, between short and long, other keyword, digits appended), four case styles, optional leading colon, '?', dropped / surplus mnemonics; non-trivial = non-empty header",
 }
 
+_CTX = "Model/Ctx.lean (with Model/Parser, Match, Result, Prim, Regs, Fifo) transcribes SCPI_Parameter and the typed readers, processCommand, findCommandHeader, SCPI_Parse and SCPI_Input; handlers are scripts interpreted by one generic handler against the real API in the harness and against the model API in Lean"
+_PRULE = "cases = (input buffer size, queue capacity, command table with handler scripts drawn from a pool of 72 entries in random order, byte chunks fed to SCPI_Input); "
+def _pprop(mod, doms, clauses, rule, extra=None):
+    return {"module": mod, "domains": doms, "clauses": clauses, "level": "proof",
+            "trusted_base": [KERNEL, CORR + "; guarded hooks report each message handed to SCPI_Parse and poison the stale tail of the input buffer", PLATFORM,
+                             "libc number conversion (strtol family, strtod/strtof correctly rounded) as specified in Model/Prim.lean and Spec/Float.lean"] + (extra or []),
+            "assumptions": [_CTX], "rule": _PRULE + rule}
+PROPS["C02"] = _pprop("ScpiVerif.Props.C02", [{"name": "p02", "cfgs": ["A"]}, {"name": "p06", "cfgs": ["A"]}], ["C02."],
+    "messages of 1..6 units with headers in every spelling (short / long, case, leading colon, optional keywords in or out, numeric suffixes, relative headers, undefined, common), overlapping and duplicate patterns; judged: handler sequence and effective headers recomputed from the raw message with Spec/Message.lean + Spec/Pattern.lean; non-trivial = at least one handler or error event")
+PROPS["C06"] = _pprop("ScpiVerif.Props.C06", [{"name": "p06", "cfgs": ["A"]}, {"name": "p02", "cfgs": ["A"]}], ["C06."],
+    "messages of 1..6 units mixing commands and queries whose scripts emit 0..4 items of every result type and succeed or fail, one or two messages per context; judged: bytes written and flush count per SCPI_Input call against frame() over independently encoded items")
+PROPS["C08"] = _pprop("ScpiVerif.Props.C08", [{"name": "p08", "cfgs": ["A"]}], ["C08."],
+    "streams of 1..4 messages (well-formed, with malformed fragments, blocks with embedded terminators, quoted strings, empty units) fed all at once / in two pieces / in random pieces of up to 9 bytes, each compared with byte-at-a-time feeding of the same stream on a second context")
+PROPS["C09"] = _pprop("ScpiVerif.Props.C09", [{"name": "p09", "cfgs": ["A"]}], ["C09."],
+    "1..3 messages A (including failing ones, unfinished blocks, unterminated tails) then a message B; B on the used context is compared with B on a fresh context that was given the same registers and error queue")
+PROPS["C05"] = _pprop("ScpiVerif.Props.C05", [{"name": "p05", "cfgs": ["A"]}], ["C05."],
+    "units pairing every typed reader (mandatory / optional, one to three readers, arrays, stop-on-failure) with parameter lists of 0..4 items of every data type, with white space around commas and malformed fragments")
+PROPS["C01"] = _pprop("ScpiVerif.Props.C01", [{"name": "p01", "cfgs": ["A", "B", "C", "D"]}, {"name": "lexer", "cfgs": ["A"]}], ["C01."],
+    "mutated messages (byte flips, deletions, insertions, syntax characters, truncation), input buffers of 2..200 bytes, queue capacities 1..4, random segmentation with over-long chunks and zero-length calls, in all four build configurations under ASan+UBSan with the buffer-tail poisoning hook")
+
 NOT_CLAIMED = {}
 
 _T = {
@@ -117,9 +139,11 @@ _T["C20"] = ("Theorems text_intact_or_absent / empty_means_reusable / fits_means
 _T["C03"] = ("Theorems: for every pattern of the property's grammar that satisfies the side condition and every header over the header alphabet, the model of matchCommand accepts iff the header is in the pattern's short/long-form language, and reports the numeric suffixes in keyword order with the caller's default for omitted ones.",
             "Lean kernel + standard axioms; model tied to utils.c by pattern-directed differential testing; Spec/Pattern.lean is the reading of the property",
             "Lean 4 theorem (greedy walker = declarative language under the side condition) + differential correspondence")
+for _k in ("C02", "C06", "C08", "C09", "C05", "C01"):
+    _T[_k] = ("(theorems in progress)", "Lean kernel + standard axioms; context model tied to parser.c by scripted differential testing", "Lean 4 theorems over the context model + differential correspondence")
 for _k, (_a, _b, _c) in _T.items():
     PROPS[_k]["level_text"], PROPS[_k]["level_note"], PROPS[_k]["technique"] = _a, _b, _c
 
 # properties whose theorem module is not complete yet are not claimed
-for _k in ("C13", "C03"):
+for _k in ("C13", "C03", "C02", "C06", "C08", "C09", "C05", "C01"):
     PROPS[_k]["unclaimed"] = True
